@@ -148,21 +148,21 @@ mod v_iface_ingress {
         let rst_in = flags & 0x04 != 0;
         if !own {
             // (f) broadcast / multicast / loopback / foreign destinations never change a TCP socket
-            assert!(untouched, "prop:c11_tcp_to_non_own_destination_changes_no_socket");
+            crate::vassert!(untouched, "prop:c11_tcp_to_non_own_destination_changes_no_socket");
         }
         if !own && !is_bcast(dst) && dst != 0xe000_0001 {
             // (b) not addressed to the interface at all (foreign unicast, unjoined multicast, loopback): silence
-            assert!(reply.is_none(), "prop:c11_foreign_destination_not_answered");
+            crate::vassert!(reply.is_none(), "prop:c11_foreign_destination_not_answered");
         }
         if dport != TCP_PORT {
-            assert!(untouched, "prop:c11_socket_only_receives_matching_endpoint");
+            crate::vassert!(untouched, "prop:c11_socket_only_receives_matching_endpoint");
         }
-        assert!(udp_untouched(&sockets, uh), "prop:c11_tcp_never_delivered_to_udp_socket");
+        crate::vassert!(udp_untouched(&sockets, uh), "prop:c11_tcp_never_delivered_to_udp_socket");
         if let Some(p) = &reply {
             // (d) never a reset/error towards or because of non-unicast addresses; (e) never answer a reset
-            assert!(!(reply_is_tcp_rst(p) || reply_is_icmp_error(p)) || (own && is_unicast_src(src)), "prop:c11_no_rst_or_error_for_non_unicast");
-            assert!(!rst_in, "prop:c11_no_reply_to_rst");
-            assert!(reply_src_legal(p), "prop:c10_reply_source_is_own_unicast_address");
+            crate::vassert!(!(reply_is_tcp_rst(p) || reply_is_icmp_error(p)) || (own && is_unicast_src(src)), "prop:c11_no_rst_or_error_for_non_unicast");
+            crate::vassert!(!rst_in, "prop:c11_no_reply_to_rst");
+            crate::vassert!(reply_src_legal(p), "prop:c10_reply_source_is_own_unicast_address");
             match p.ip_repr() {
                 IpRepr::Ipv4(r) => assert!(r.dst_addr == Ipv4Address::from_bits(src), "prop:c10_reply_goes_to_sender"),
                 #[allow(unreachable_patterns)]
@@ -198,28 +198,28 @@ mod v_iface_ingress {
         let own = dst == OWN_U32;
         let addressed = own || is_bcast(dst) || dst == 0xe000_0001;
         let delivered = !udp_untouched(&sockets, uh);
-        assert!(tcp_untouched(&sockets, th), "prop:c11_udp_never_delivered_to_tcp_socket");
+        crate::vassert!(tcp_untouched(&sockets, th), "prop:c11_udp_never_delivered_to_tcp_socket");
         if !addressed {
-            assert!(!delivered && reply.is_none(), "prop:c11_foreign_destination_not_delivered_or_answered");
+            crate::vassert!(!delivered && reply.is_none(), "prop:c11_foreign_destination_not_delivered_or_answered");
         }
         if delivered {
-            assert!(dport == UDP_PORT && addressed, "prop:c11_socket_only_receives_matching_endpoint");
-            assert!(reply.is_none(), "prop:c09_delivered_datagram_not_answered");
+            crate::vassert!(dport == UDP_PORT && addressed, "prop:c11_socket_only_receives_matching_endpoint");
+            crate::vassert!(reply.is_none(), "prop:c09_delivered_datagram_not_answered");
             // exactly one datagram, whole, with the right metadata
             let s = sockets.get_mut::<udp::Socket>(uh);
             let mut buf = [0u8; 8];
             let (n, meta) = s.recv_slice(&mut buf[..]).unwrap();
-            assert!(n == 4 && buf[0] == pl[0] && buf[1] == pl[1] && buf[2] == pl[2] && buf[3] == pl[3], "prop:c09_delivered_payload_exact");
-            assert!(meta.endpoint.port == sport && meta.endpoint.addr == IpAddress::Ipv4(Ipv4Address::from_bits(src)), "prop:c09_delivered_source_metadata");
-            assert!(meta.local_address == Some(IpAddress::Ipv4(Ipv4Address::from_bits(dst))), "prop:c09_delivered_destination_metadata");
-            assert!(!s.can_recv(), "prop:c09_delivered_exactly_once");
+            crate::vassert!(n == 4 && buf[0] == pl[0] && buf[1] == pl[1] && buf[2] == pl[2] && buf[3] == pl[3], "prop:c09_delivered_payload_exact");
+            crate::vassert!(meta.endpoint.port == sport && meta.endpoint.addr == IpAddress::Ipv4(Ipv4Address::from_bits(src)), "prop:c09_delivered_source_metadata");
+            crate::vassert!(meta.local_address == Some(IpAddress::Ipv4(Ipv4Address::from_bits(dst))), "prop:c09_delivered_destination_metadata");
+            crate::vassert!(!s.can_recv(), "prop:c09_delivered_exactly_once");
         } else if dport == UDP_PORT && addressed && (is_unicast_src(src) || src == 0) {
-            assert!(false, "prop:c09_valid_datagram_for_bound_socket_delivered");
+            crate::vassert!(false, "prop:c09_valid_datagram_for_bound_socket_delivered");
         }
         if let Some(p) = &reply {
-            assert!(own && is_unicast_src(src), "prop:c11_no_rst_or_error_for_non_unicast");
-            assert!(reply_is_icmp_error(p), "prop:c11_udp_reply_is_port_unreachable_only");
-            assert!(reply_src_legal(p), "prop:c10_reply_source_is_own_unicast_address");
+            crate::vassert!(own && is_unicast_src(src), "prop:c11_no_rst_or_error_for_non_unicast");
+            crate::vassert!(reply_is_icmp_error(p), "prop:c11_udp_reply_is_port_unreachable_only");
+            crate::vassert!(reply_src_legal(p), "prop:c10_reply_source_is_own_unicast_address");
         }
         kani::cover!(delivered && own, "unicast datagram delivered");
         kani::cover!(delivered && is_bcast(dst), "broadcast datagram delivered");
@@ -246,21 +246,21 @@ mod v_iface_ingress {
         let reply = iface.inner.process_ip(&mut sockets, PacketMeta::default(), &b[..], &mut iface.fragments);
         let own = dst == OWN_U32;
         let addressed = own || is_bcast(dst) || dst == 0xe000_0001;
-        assert!(tcp_untouched(&sockets, th) && udp_untouched(&sockets, uh), "prop:c11_icmp_never_delivered_to_tcp_or_udp_socket");
+        crate::vassert!(tcp_untouched(&sockets, th) && udp_untouched(&sockets, uh), "prop:c11_icmp_never_delivered_to_tcp_or_udp_socket");
         if !addressed {
-            assert!(reply.is_none(), "prop:c11_foreign_destination_not_answered");
-            assert!(!sockets.get::<icmp::Socket>(ih).can_recv(), "prop:c11_foreign_destination_not_delivered");
+            crate::vassert!(reply.is_none(), "prop:c11_foreign_destination_not_answered");
+            crate::vassert!(!sockets.get::<icmp::Socket>(ih).can_recv(), "prop:c11_foreign_destination_not_delivered");
         }
         if let Some(p) = &reply {
             // only echo requests are answered, never ICMP errors, and never with an error
-            assert!(ty == 8 && code == 0, "prop:c11_only_echo_request_answered");
-            assert!(!reply_is_icmp_error(p) && !reply_is_tcp_rst(p), "prop:c11_no_error_in_answer_to_icmp");
-            assert!(is_unicast_src(src), "prop:c11_no_reply_to_non_unicast_source");
-            assert!(reply_src_legal(p), "prop:c10_reply_source_is_own_unicast_address");
-            assert!(!is_mcast(dst), "prop:c11_multicast_echo_not_answered");
+            crate::vassert!(ty == 8 && code == 0, "prop:c11_only_echo_request_answered");
+            crate::vassert!(!reply_is_icmp_error(p) && !reply_is_tcp_rst(p), "prop:c11_no_error_in_answer_to_icmp");
+            crate::vassert!(is_unicast_src(src), "prop:c11_no_reply_to_non_unicast_source");
+            crate::vassert!(reply_src_legal(p), "prop:c10_reply_source_is_own_unicast_address");
+            crate::vassert!(!is_mcast(dst), "prop:c11_multicast_echo_not_answered");
         }
         if ty == 8 && code == 0 && own && is_unicast_src(src) {
-            assert!(reply.is_some(), "prop:c03_echo_request_to_own_address_answered");
+            crate::vassert!(reply.is_some(), "prop:c03_echo_request_to_own_address_answered");
         }
         kani::cover!(reply.is_some() && own, "echo reply");
         kani::cover!(reply.is_some() && is_bcast(dst), "echo reply to a broadcast ping");
@@ -268,7 +268,7 @@ mod v_iface_ingress {
     }
 
     // C03, raw-IP medium: arbitrary bytes as an IPv4 packet never panic and leave the interface answering pings.
-    // @harness props=C03 cfg=KI4 tier=q to=1800 mem=12 unwind=12 covers=2 funcs=InterfaceInner::process_ip;InterfaceInner::process_ipv4;InterfaceInner::process_tcp;InterfaceInner::process_udp;InterfaceInner::process_icmpv4;InterfaceInner::process_igmp;wire::Ipv4Repr::parse;wire::TcpRepr::parse;wire::UdpRepr::parse;wire::Icmpv4Repr::parse bounds=raw-IP_medium;_first_byte_0x45_(IPv4,_no_options);_36_arbitrary_following_bytes,_length_0..=36;_sockets:_TCP_listener,_UDP_bound,_ICMP_bound
+    // @harness props=C03 cfg=KI4 tier=q to=1800 mem=8 unwind=12 covers=2 funcs=InterfaceInner::process_ip;InterfaceInner::process_ipv4;InterfaceInner::process_tcp;InterfaceInner::process_udp;InterfaceInner::process_icmpv4;InterfaceInner::process_igmp;wire::Ipv4Repr::parse;wire::TcpRepr::parse;wire::UdpRepr::parse;wire::Icmpv4Repr::parse bounds=raw-IP_medium;_first_byte_0x45_(IPv4,_no_options);_36_arbitrary_following_bytes,_length_0..=36;_sockets:_TCP_listener,_UDP_bound,_ICMP_bound
     #[kani::proof]
     pub(crate) fn ipv4_bytes_free() {
         env4!(iface, sockets, th, uh, ih, Medium::Ip, ChecksumCapabilities::ignored());
@@ -277,7 +277,7 @@ mod v_iface_ingress {
         let len = any_le(36);
         let reply = iface.inner.process_ip(&mut sockets, PacketMeta::default(), &b[..len], &mut iface.fragments);
         if let Some(p) = &reply {
-            assert!(reply_src_legal(p) || is_bcast(u32::from_be_bytes([b[16], b[17], b[18], b[19]])), "prop:c10_reply_source_is_own_unicast_address");
+            crate::vassert!(reply_src_legal(p) || is_bcast(u32::from_be_bytes([b[16], b[17], b[18], b[19]])), "prop:c10_reply_source_is_own_unicast_address");
         }
         kani::cover!(reply.is_some(), "a reply was produced");
         kani::cover!(!tcp_untouched(&sockets, th), "listener took a SYN");
@@ -307,11 +307,11 @@ mod v_iface_ingress {
         let bcast = dmac == [0xff; 6];
         let mcast = dmac[0] & 1 == 1;
         if !ours && !bcast && !mcast {
-            assert!(reply.is_none(), "prop:c11_frame_for_another_station_not_answered");
-            assert!(!sockets.get::<icmp::Socket>(ih).can_recv(), "prop:c11_frame_for_another_station_not_delivered");
+            crate::vassert!(reply.is_none(), "prop:c11_frame_for_another_station_not_answered");
+            crate::vassert!(!sockets.get::<icmp::Socket>(ih).can_recv(), "prop:c11_frame_for_another_station_not_delivered");
         }
         if et != 0x0800 && et != 0x0806 {
-            assert!(reply.is_none(), "prop:c11_unknown_ethertype_ignored");
+            crate::vassert!(reply.is_none(), "prop:c11_unknown_ethertype_ignored");
         }
         kani::cover!(reply.is_some() && ours, "echo reply through Ethernet");
         kani::cover!(reply.is_none() && !ours && !bcast && !mcast && et == 0x0800, "foreign station ignored");
@@ -359,8 +359,8 @@ mod v_iface_ingress {
             put16(&mut b, ck_off, v);
         }
         let reply = iface.inner.process_ip(&mut sockets, PacketMeta::default(), &b[..len], &mut iface.fragments);
-        assert!(reply.is_none(), "prop:c08_bad_checksum_not_answered");
-        assert!(tcp_untouched(&sockets, th) && udp_untouched(&sockets, uh) && !sockets.get::<icmp::Socket>(ih).can_recv(), "prop:c08_bad_checksum_has_no_effect_on_sockets");
+        crate::vassert!(reply.is_none(), "prop:c08_bad_checksum_not_answered");
+        crate::vassert!(tcp_untouched(&sockets, th) && udp_untouched(&sockets, uh) && !sockets.get::<icmp::Socket>(ih).can_recv(), "prop:c08_bad_checksum_has_no_effect_on_sockets");
         kani::cover!(bad_ip && which == 1, "TCP SYN with a bad IP header checksum");
         kani::cover!(!bad_ip && which == 0, "UDP with a bad checksum");
     }
@@ -378,6 +378,6 @@ mod v_iface_ingress {
         b[32] = 0x50;
         b[33] = 0x02;
         let reply = iface.inner.process_ip(&mut sockets, PacketMeta::default(), &b[..], &mut iface.fragments);
-        assert!(tcp_untouched(&sockets, th), "prop:deliberately_false_listener_never_accepts");
+        crate::vassert!(tcp_untouched(&sockets, th), "prop:deliberately_false_listener_never_accepts");
     }
 }
